@@ -559,7 +559,13 @@ func (s *sided) operatorLicenseIssues(pred string) []sideIssue {
 		}
 		licensed := false
 		if o := s.valOfExpr(be.X); o != nil {
-			for _, cand := range []*VOpaque{o, underlyingVal(o)} {
+			cands := []*VOpaque{o, underlyingVal(o)}
+			// the predicates are tabulated over Underlying(): what they accept for a named type they accept for its
+			// underlying type (a value read through the underlying type of a type that cannot be spelled)
+			if n, ok := o.attrs["#underlyingOf"].(*VOpaque); ok {
+				cands = append(cands, n)
+			}
+			for _, cand := range cands {
 				if ans, asked := run.predTrue(pred, cand); asked && ans {
 					licensed = true
 				}
